@@ -59,7 +59,7 @@ def _digest(*parts):
 def _files_digest(stem):
     import glob
     parts = []
-    for fn in sorted(glob.glob(stem + '.????.raw')):
+    for fn in sorted(glob.glob(glob.escape(stem) + '.????.raw')):
         parts.append(os.path.basename(fn)[-8:])
         with open(fn, 'rb') as f:
             parts.append(f.read())
